@@ -527,4 +527,79 @@ def specOK (p : Prog) : Bool :=
   | .error _ => false
   | .ok q => execView q == execView p && State.beq (marshal q) (marshal p)
 
+/-! ## sessions: histories of MarshalCode / UnmarshalCode calls whose results are kept
+
+A host that precompiles scripts calls `MarshalCode` and `UnmarshalCode` many times on several
+code objects and keeps what the calls returned: byte strings that are written to a cache or
+unmarshalled later, code objects that are marshalled again or run later.  A session is a list
+of such calls over a store of code objects (`codes`: the compiled programs the session starts
+with, then every code object a successful `unmarshal` returned) and of retained byte strings
+(`blobs`: every result of a `marshal`, in the order obtained).  Operands are positions in the
+store, so a later operation can use the result of any earlier one.
+
+Impl (`run`): the code as it is — `MarshalCode` returns `json.Marshal`'s freshly allocated
+slice, `UnmarshalCode` builds new objects — so a result, once returned, is a value nobody
+else writes to: the store only grows.  Spec (`Op.eval`): every operation is the pure function
+`marshal` / `unmarshal` of its operand, whatever was called before or after it.  The harness
+runs real sessions and compares every RETAINED real result, read at the END of the session,
+with `run`'s (Props: `session_results_independent`, `session_retained_read_back`). -/
+
+inductive Op where
+  | marshal (i : Nat)      -- MarshalCode(codes[i]); the returned bytes are retained
+  | unmarshal (j : Nat)    -- UnmarshalCode(blobs[j]); the returned code joins the store
+  deriving DecidableEq, Repr, Inhabited
+
+/-- what one call returned -/
+inductive Res where
+  | bytes (w : State)
+  | code (q : Prog)
+  | failed (e : Err)
+
+structure Store where
+  codes : List Prog
+  blobs : List State
+
+/-- Spec: the operation performed alone on a store — the pure function of its operand
+    (`none`: the operand does not exist, nothing is called) -/
+def Op.eval (s : Store) : Op → Option Res
+  | .marshal i => (s.codes[i]?).map fun p => .bytes (Risor.C17.marshal p)
+  | .unmarshal j => (s.blobs[j]?).map fun w =>
+      match Risor.C17.unmarshal w with
+      | .ok q => .code q
+      | .error e => .failed e
+
+/-- the caller keeps the result -/
+def Store.retain (s : Store) : Option Res → Store
+  | some (.bytes w) => { s with blobs := s.blobs ++ [w] }
+  | some (.code q) => { s with codes := s.codes ++ [q] }
+  | _ => s
+
+/-- a session: the final store and what each call returned -/
+def run : Store → List Op → Store × List (Option Res)
+  | s, [] => (s, [])
+  | s, op :: ops =>
+    let r := op.eval s
+    let rest := run (s.retain r) ops
+    (rest.1, r :: rest.2)
+
+/-- where the caller finds the result of the next call of kind `op` at the END of the session:
+    the position it was retained at (the store had this many entries of its kind) -/
+def Store.slot (s : Store) : Op → Nat
+  | .marshal _ => s.blobs.length
+  | .unmarshal _ => s.codes.length
+
+/-- reading a retained result back from a store -/
+def Store.readBack (s : Store) (k : Nat) : Res → Option Res
+  | .bytes _ => (s.blobs[k]?).map .bytes
+  | .code _ => (s.codes[k]?).map .code
+  | .failed e => some (.failed e)
+
+/-- For contrast only (NOT the code as it is): a `MarshalCode` that hands out its internal
+    buffer.  Every retained byte string is a window on the one buffer, so after a later
+    `marshal` all of them read as the document written last (same-length case). -/
+def aliasedBlobs (s : Store) : List State :=
+  match s.blobs.getLast? with
+  | none => []
+  | some w => s.blobs.map fun _ => w
+
 end Risor.C17
